@@ -1,5 +1,6 @@
 import Drv.Util
 import Drv.ParMap
+import Drv.Names
 /-! JSON-lines driver over the executable model: one request per line in, one reply per line out. -/
 open Lean
 
@@ -7,6 +8,7 @@ def dispatch (j : Json) : Drv.R Json := do
   let m ← Drv.str j "m"
   match m with
   | "parmap" => Drv.ParMap.handle j
+  | "names" => Drv.Names.handle j
   | _ => throw "bad_op"
 
 partial def loop (h : IO.FS.Stream) (out : IO.FS.Stream) : IO Unit := do
